@@ -5,15 +5,29 @@ MatrixPreprocess/TensorPreprocess and TLC is the oracle.
 
 (M)  TLC checks the theorems of the property on the exact semantics for every enumerated case (column means of the
      transform are 0; the promised statistic per option; zero-spread columns -> exactly 0; Apply(Fit(X))(X) = Fit(X);
-     new rows get the same map; a MISSING cell is the same as a deleted cell; tensor = per block; shift/scale laws).
+     new rows get the same map; a MISSING cell is the same as a deleted cell; tensor = per block; shift/scale laws;
+     T9 the transform does not depend on the unit of the column (x -> kx); T10 columns are transformed on their own,
+     equal columns get equal results; T11 tied values / duplicate rows get equal results).
+     spec/PrepGuard.tla (over spec/PrepRound.tla) states what the zero-scale guard must satisfy for "columns without
+     spread become exactly zero": rounding noise of a constant column < threshold <= smallest admissible genuine scale,
+     for rows 2..60 and magnitudes to 1e6; thresholds outside the window (DBL_EPSILON, 1e-6, 1.4e-3) are refuted by TLC.
 (GEN/replay)  TLC enumerates integer matrices over -2..3 with <= 1 MISSING cell x 4 affine images x 7 options and prints
      every case with its exact result; harness/c10_replay.c feeds each case (at several dyadic units) to the real
      library: fit, apply on the same matrix, apply on new rows, TensorPreprocess, and compares.
 (validate)  harness/c10_trace.c runs the library on matrices 2..60 x 1..20 inside the property's quantifier and logs
      integer data + the integer projection of the results; TLC recomputes the exact statistics of every logged
-     column (spec/TracePreprocess.tla).
+     column (spec/TracePreprocess.tla).  The recording follows a fixed schedule of input classes (INPUT-CLASSES.md):
+     K5 constant / tied / zero-mean columns on NON-representable grids (units 1/10, 1/3, 1/1000, 1/7, 1/49, 1/100; rows
+     3, 7, 10, 49, 60; with MISSING cells; with offsets to 1e6; every option 0..5) - TLC demands exact zeros (bit patterns
+     summarised as zero/nz/tmax) for every column whose exact scale is 0 and bounds the stored scaling by the rounding
+     model of PrepRound.tla; K1/K2 shape relations and boundaries; K3 offsets; K4 units 2^-10..2^20; K7 outputs already
+     sized and holding other data, refit after fits of another and of the same shape; K8 duplicate rows/columns, ties,
+     constant among informative; K9 MISSING in first/last row and in new rows.
+     Outside the statement (reported as EXTRA-FINDING, never a verdict): the column-statistic routines called directly
+     (MatrixColAverage/SDEV/Var/RMS/ColumnMinMax, Stat events) and columns with fewer than two present cells (Deg events).
 """
 import os, shutil, collections
+from fractions import Fraction
 from concurrent.futures import ThreadPoolExecutor
 from vf import build, tlc, trace
 from vf import run as hrun
@@ -24,16 +38,27 @@ READY = True
 TECHNIQUE = ("TLC as exact rational oracle: Preprocess.tla enumerates small integer matrices x affine images x options with their exact "
              "statistics/transform (theorems of the property checked as invariants on every case), a C driver replays every case through "
              "MatrixPreprocess/TensorPreprocess; plus TLC trace validation (TracePreprocess.tla) of integer-projected results recorded from "
-             "matrices up to 60 x 20 with offsets to 1e6 and missing cells")
+             "matrices up to 60 x 20 with offsets to 1e6 and missing cells on dyadic AND non-representable grids (0.1, 1/3, 1e-3 ...: constant, "
+             "tied and zero-mean columns whose sum/n is an ulp off), with class-scheduled inputs (INPUT-CLASSES K1-K5, K7-K9), a rounding model "
+             "(PrepRound.tla) for the tolerances and a model-checked window for the zero-scale guard (PrepGuard.tla)")
 LEVEL_TEXT = ("The exact semantics of the seven options (statistics skipping MISSING, scale at its rational power, zero-scale rule, fit/apply, "
-              "tensor) is model-checked against the property's theorems on every enumerated case, and every enumerated case is replayed "
-              "through the real library and compared with the value TLC computed (exhaustive over the stated small scope in the thorough "
-              "tier, a seeded residue-class sample in the quick tier); larger in-quantifier matrices are recorded from the real code and "
-              "every logged column is re-derived exactly by TLC.")
-LEVEL_NOTE = ("Trusts TLC/CommunityModules, the C drivers' comparison and integer projection (double arithmetic, 1e-9 relative + cancellation "
-              "slack 1e-13*max|x|), ASan/UBSan as memory monitor. Exhaustive scope is small (rows 2..5, cols 1..2, values -2..3, <= 1 missing); "
-              "the large-matrix direction is sampled. Inputs keep scales >= 0.02 or exactly 0 and means exactly 0 or >= 1e-3 (the library's "
-              "snapping thresholds 1e-3 / 1e-6 are outside the property's quantifier).")
+              "tensor, unit invariance, column locality) is model-checked against the property's theorems on every enumerated case, and every "
+              "enumerated case is replayed through the real library and compared with the value TLC computed (exhaustive over the stated small "
+              "scope in the thorough tier, a seeded residue-class sample in the quick tier); larger in-quantifier matrices - including columns "
+              "whose values are not representable, for which the exact-zero clause is decided by TLC on the recorded bit-pattern summary - are "
+              "recorded from the real code and every logged column is re-derived exactly by TLC.")
+LEVEL_NOTE = ("Trusts TLC/CommunityModules, the C drivers' comparison and integer projection (long double arithmetic; 1e-9 relative + cancellation "
+              "slack 1e-15*|offset|*N on dyadic grids; on non-dyadic grids the a-priori rounding bounds of PrepRound.tla, functions of N, offset and "
+              "spread computed by TLC from the logged integers), ASan/UBSan as memory monitor. Exhaustive scope is small (rows 2..5, cols 1..2, values "
+              "-2..3, <= 1 missing); the large-matrix direction is a class-scheduled sample. Inputs keep scales >= 0.02 or exactly 0 and means exactly 0 or "
+              ">= 1e-3 (the library's threshold 1e-3 is outside the property's quantifier), offsets <= 1e6 (1e6/unit capped at 1e9 units; informative "
+              "columns on non-dyadic grids <= 1e6 units so that input rounding stays below 1e-3 of the integer grid). Exact zeros are demanded where the "
+              "exact scale is 0 (options 1, 3, 4 on constant columns; 2 and 5 on zero columns / zero means); a constant non-representable column under "
+              "options 0, 2, 5 has a non-zero scale and must only satisfy t*scale = x - mean within the rounding bound (the library returns ~1e-16 there). "
+              "Classes not emitted because the quantifier or the code excludes them: K4 whole-input scales below 1 ulp of the 0.02 spread floor (1e-6) "
+              "- spreads < 0.02 are excluded; K6 processor counts - preprocessing.c and the column statistics reach no MT_* kernel and spawn no workers; "
+              "K10 label alphabets - no labels; K1 single row - matrices have >= 2 rows; K9 whole column MISSING / a single present cell - the sample "
+              "spread of the column is undefined (covered by the EXTRA part only: the library returns NaN for options 1, 3 resp. 2).")
 
 ALL_TYPES = [0, 1, 2, 3, 4, 5, 6]     # type + 1
 
@@ -109,8 +134,8 @@ def _replay_cases(ctx, exe, rd, tag, cases):
         raise InfraError("c10_replay wrote no Done line")
     for f in fails:
         c = cases[f["id"]]
-        ctx.violation(_sig(f), "option %d, variant %d, unit 2^-%d, cell (%d,%d): %s: got %s, exact %s; X=%s" % (
-            f["type"], f["v"], f["exp"], f["i"], f["j"], f["what"], f["got"], f["want"], c["X"]), dict(kind="case", case=c, exp=f["exp"]))
+        ctx.violation(_sig(f), "option %d, variant %d, unit 2^-%d/%d, cell (%d,%d): %s: got %s, exact %s; X=%s" % (
+            f["type"], f["v"], f["exp"], f.get("den", 1), f["i"], f["j"], f["what"], f["got"], f["want"], c["X"]), dict(kind="case", case=c, exp=f["exp"], den=f.get("den", 1)))
     return len(fails), (done[0]["runs"] if done else 0)
 
 
@@ -118,6 +143,48 @@ def _nontrivial(e):
     has_missing = any(x == 99999999 for row in e["X"] for x in row)
     has_zero = any(a[0] == 0 for a in e["sp"])
     return has_missing or has_zero or e["c"] > 1 or e["v"] != 0
+
+
+def _run_guard(ctx):
+    """PrepGuard.tla: the zero-scale threshold must lie between the rounding noise of a constant column and the smallest
+    admissible genuine scale, for all rows 2..60 and magnitudes to 1e6; negative configurations (thresholds outside the
+    window, among them DBL_EPSILON) must be refuted by TLC, else the theorem is vacuous"""
+    cfgs = [("MC_PrepGuard.cfg", True), ("MC_PrepGuard_eps.cfg", False)]
+    if not ctx.quick:
+        cfgs += [("MC_PrepGuard_1e6.cfg", False), ("MC_PrepGuard_1p4e3.cfg", False)]
+
+    def one(item):
+        return item, tlc.run("PrepGuard", item[0], workers=1, timeout=300, coverage=False, xmx="1g")
+    with ThreadPoolExecutor(4) as ex:
+        for (cfg, want), r in ex.map(one, cfgs):
+            ctx.add_tlc(r, "guard_" + cfg[3:-4])
+            if want and (not r.ok or r.distinct != 59 * 9):
+                raise InfraError("PrepGuard.tla: GuardSound fails for the threshold of the statement's window (%s, %d states):\n%s" % (r.violation, r.distinct, r.trace_text[:800]))
+            if not want and r.violation != "GuardSound":
+                raise InfraError("PrepGuard.tla: threshold outside the window (%s) not refuted - the guard theorem is vacuous" % cfg)
+    ctx.note("model: zero-scale guard window (PrepGuard.tla) holds for 1e-3 on rows 2..60 x 9 magnitudes; %d out-of-window thresholds refuted" % (len(cfgs) - 1))
+
+
+def _cls_replay(ctx, e):
+    """input classes of a TLC-enumerated replay case (counted once per case)"""
+    r, c, X = e["r"], e["c"], e["X"]
+    ctx.cls("replay/K1:%s" % ("tall" if r > c else "square" if r == c else "wide"))
+    if c == 1:
+        ctx.cls("replay/K1:single-column")
+    if e["v"] == 2:
+        ctx.cls("replay/K3:offset+-1000")
+    if e["v"] in (1, 3):
+        ctx.cls("replay/K3:mean-in-threshold-window")
+    if any(x == 99999999 for x in X[0]):
+        ctx.cls("replay/K9:first-row-missing")
+    if any(x == 99999999 for x in X[-1]):
+        ctx.cls("replay/K9:last-row-missing")
+    if any(a[0] == 0 for a in e["sp"]) and e["type"] > 0:
+        ctx.cls("replay/K8:zero-scale-column")
+    if len(set(tuple(row) for row in X)) < r:
+        ctx.cls("replay/K8:dup-rows")
+    if c == 2 and all(row[0] == row[1] for row in X):
+        ctx.cls("replay/K8:dup-cols")
 
 
 def _run_replay(ctx, rd, lib):
@@ -141,6 +208,7 @@ def _run_replay(ctx, rd, lib):
             for e in cases:
                 key = (e["type"], e["r"], e["c"], e["v"], any(a[0] == 0 for a in e["sp"]), any(x == 99999999 for row in e["X"] for x in row))
                 ctx.case(("R",) + key, _nontrivial(e))
+                _cls_replay(ctx, e)
                 stats["type%d" % e["type"]] += 1
                 if e["type"] == 5 and e["v"] in (1, 3) and any(a[0] != 0 for a in e["sp"]) and any(any(x != 0 for x in row) for row in e["cn"]):
                     stats["window"] += 1
@@ -164,117 +232,257 @@ def _run_replay(ctx, rd, lib):
                                window_cases=stats["window"], zero_scale_cases=stats["zero"], missing_cases=stats["missing"])
 
 
-def _min_ssd(e, n):
-    return 1 if e == 0 else ((n * (n - 1) + 8) // 9 if e == 4 else 420 * n * (n - 1))
-
-
 def _check_quantifier(events):
-    """the recording driver must stay inside the property's quantifier (else the fault is ours: InfraError)"""
+    """the recording driver must stay inside the property's quantifier (else the fault is ours: InfraError).
+    cell = (piv + d) * 2^-exp / den: sample sdev >= 0.02 or exactly 0, mean exactly 0 or >= 1e-3, |d| <= 400, >= 2 present cells"""
     for ev in events:
         if ev["e"] != "Col":
             continue
         d = [x for x in ev["d"] if x != 99999999]
         n, s1, s2 = len(d), sum(d), sum(x * x for x in d)
         ssd = n * s2 - s1 * s1
-        e = ev["exp"]
+        e, q = ev["exp"], ev["den"]
+        unit = Fraction(1, q) / (Fraction(2) ** e)
         tot = ev["piv"] * n + s1
-        if n < 2 or not (ssd == 0 or ssd >= _min_ssd(e, n)) or not (tot == 0 or 1000 * abs(tot) >= n * (1 << e)) or max(abs(x) for x in d) > 400:
+        ok = n >= 2 and max(abs(x) for x in d) <= 400 and q >= 1
+        ok = ok and (ssd == 0 or Fraction(ssd, n * (n - 1)) * unit * unit >= Fraction(4, 10000))
+        ok = ok and (tot == 0 or abs(Fraction(tot, n) * unit) >= Fraction(1, 1000))
+        ok = ok and (abs(ev["piv"]) * unit <= 1100000 or abs(ev["piv"]) <= 400) and (q == 1 or e == 0)    # offsets to 1e6 (whole-input scale 2^10, 2^20: class K4)
+        ok = ok and (q == 1 or ssd == 0 or abs(ev["piv"]) <= 1000000)
+        if not ok:
             raise InfraError("c10_trace generated a column outside the quantifier: %s" % ev)
 
 
+EXTRA_KINDS = ("Stat", "DegCol", "Deg")        # events about behaviour outside the statement / quantifier: rejection -> EXTRA-FINDING
+
+
 def _sig_trace(ev):
-    kind = {"Avg": "avg", "Scale": "scale", "Cells": "cell", "Same": "apply", "New": "apply", "Tensor": "tensor", "Copy": "cell", "Col": "cell"}.get(ev["e"], ev["e"])
+    if ev["e"] == "Stat":
+        return "PREP:stat:%s" % ev.get("fn", "?")
+    if ev["e"] in ("Deg", "DegCol"):
+        return "PREP:%d:degenerate-column" % ev.get("type", 9)
+    kind = {"Avg": "avg", "Scale": "scale", "Cells": "cell", "Same": "apply", "New": "apply", "Tensor": "tensor", "Copy": "cell", "Col": "cell",
+            "Again": "refit"}.get(ev["e"], ev["e"])
     return "PREP:%d:%s" % (ev.get("type", 9), kind)
 
 
-def _run_validate(ctx, rd, lib, only=None):
-    """only = (seed, nmat, local matrix id): re-record that run and validate just that matrix (replay of a stored violation)"""
-    exe = build.build_harness("c10t", ["c10_trace.c"], lib)
-    nproc, nmat = (4, 60) if ctx.quick else (12, 400)
-    jobs = [[os.path.join(rd, "v%d.ndjson" % i), ctx.seed + 101 * i, nmat] for i in range(nproc)]
-    if only:
-        jobs = [[os.path.join(rd, "v0.ndjson"), only[0], only[1]]]
+K5_ROWS = (3, 7, 10, 49, 60)
+
+
+def _record(ctx, exe, rd, jobs):
+    """run the recording driver once per job [path, seed, nmat, mode]; returns one event list per job"""
     res = hrun.run_many(exe, jobs, timeout=1500, workers=6)
     blocks = []
     for j, h in zip(jobs, res):
         ev = hrun.read_ndjson(j[0])
         if h.rc != 0:
             last = ev[-1] if ev else {}
+            rp = dict(kind="trace", seed=j[1], nmat=j[2], mode=j[3], id=last.get("id", 0))
             if h.san:
-                ctx.violation("PREP:%s:%s" % (last.get("type", "?"), h.san), "sanitizer report while recording (seed %s, after %s):\n%s" % (j[1], last, h.err[:1500]),
-                              dict(kind="trace", seed=j[1], nmat=j[2], id=last.get("id", 0)))
+                ctx.violation("PREP:%s:%s" % (last.get("type", "?"), h.san), "sanitizer report while recording (seed %s, after %s):\n%s" % (j[1], last, h.err[:1500]), rp)
             elif h.timed_out:
                 raise InfraError("c10_trace timed out")
             elif h.rc < 0 and ev:
                 # killed by a signal inside a library call (the driver itself is deterministic and only allocates through the library)
-                ctx.violation("PREP:%s:crash" % last.get("type", "?"), "recording driver killed by signal %d after event %s (seed %s): %s" % (-h.rc, last, j[1], h.err[-600:]),
-                              dict(kind="trace", seed=j[1], nmat=j[2], id=last.get("id", 0)))
+                ctx.violation("PREP:%s:crash" % last.get("type", "?"), "recording driver killed by signal %d after event %s (seed %s): %s" % (-h.rc, last, j[1], h.err[-600:]), rp)
             else:
                 raise InfraError("c10_trace died rc=%d: %s" % (h.rc, h.err[-800:]))
-        if only:
-            ev = [e for e in ev if e.get("id") == only[2]]
         for e in ev:
-            e["seed"], e["nmat"] = j[1], j[2]
+            e["seed"], e["nmat"], e["mode"] = j[1], j[2], j[3]
         blocks.append(ev)
-    events = [e for b in blocks for e in b]
-    kinds = collections.Counter(e["e"] for e in events)
-    if not only:
-        for k in ("Reset", "Col", "Avg", "Scale", "Cells", "Same", "New", "Copy", "Tensor"):
-            if kinds[k] == 0:
-                raise InfraError("validate direction vacuous: no %s event recorded" % k)
-    elif not events:
-        raise InfraError("replay: the recording no longer contains that matrix")
-    _check_quantifier(events)
+    return blocks
+
+
+def _account(ctx, events):
+    """evidence accounting: cases, class counts (INPUT-CLASSES.md), samples; returns the (seed, id, j) -> Col map"""
     cur = None
     cols = {}
     for e in events:
         if e["e"] == "Reset":
             cur = e
-        elif e["e"] == "Col":
-            cols[(e["seed"], e["id"], e["j"])] = e
+            for t in e.get("tags", []):
+                if not t.startswith("slot:"):
+                    ctx.cls(t)
+        elif e["e"] in ("Col", "DegCol"):
+            cols[(e["seed"], e["mode"], e["id"], e["j"])] = e
             d = [x for x in e["d"] if x != 99999999]
-            const = len(set(d)) == 1
-            ctx.case(("V", e["type"], min(cur["r"], 8), min(cur["c"], 3), cur["exp"], const, e["hm"], abs(e["piv"]) > 100000), True)
-        elif e["e"] in ("Tensor", "Copy"):
+            const = len(set(d)) <= 1
+            ctx.case(("V", e["e"], e["type"], min(cur["r"], 8), min(cur["c"], 3), cur["exp"], min(e["den"], 2), const, e["hm"], abs(e["piv"]) > 100000), True)
+            for t in e.get("tags", []):
+                ctx.cls(t)
+                if t.startswith("K5:const-nonrep"):
+                    ctx.cls("%s/option%d" % (t, e["type"]))
+        elif e["e"] in ("Tensor", "Copy", "Again"):
             ctx.case(("V", e["e"], e["type"], e.get("nb", 0)), True)
+            if e["e"] == "Again":
+                ctx.cls("K7:refit-after-other-shape-and-same-shape-fits")
+            if e["e"] == "Tensor":
+                ctx.cls("K1:tensor-%d-blocks" % e["nb"])
+        elif e["e"] == "Stat":
+            ctx.case(("V", "Stat", e["fn"]), True)
+    return cols
+
+
+def _vacuity(events, kinds, deg):
+    """every new class / event kind must really have been recorded"""
+    need = ("DegCol", "Deg", "Reset", "Col", "Avg", "Scale", "Cells") if deg else ("Reset", "Col", "Avg", "Scale", "Cells", "Same", "New", "Copy", "Tensor", "Stat", "Again")
+    for k in need:
+        if kinds[k] == 0:
+            raise InfraError("validate direction vacuous: no %s event recorded (%s)" % (k, "deg" if deg else "main"))
+    if deg:
+        return
+    seen = collections.Counter()
+    rows = {}
+    for e in events:
+        if e["e"] == "Reset":
+            rows[(e["seed"], e["id"])] = e["r"]
+            for t in e.get("tags", []):
+                seen[t] += 1
+        elif e["e"] == "Col":
+            for t in e.get("tags", []):
+                seen[t] += 1
+                if t in ("K5:const-nonrep", "K5:const-nonrep-missing", "K5:const-nonrep-bigoffset"):
+                    seen[(t, e["type"])] += 1
+                if t == "K5:const-nonrep":
+                    seen[("K5rows", rows[(e["seed"], e["id"])])] += 1
+        elif e["e"] == "Stat":
+            seen[("Stat", e["fn"])] += 1
+    miss = [t for t in ("K5:const-nonrep", "K5:const-nonrep-missing", "K5:const-nonrep-bigoffset") for o in range(1, 6) if seen[(t, o)] == 0 and not (o == 2 and t.endswith("bigoffset"))]
+    miss += ["K5 rows %d" % r for r in K5_ROWS if seen[("K5rows", r)] == 0]
+    miss += [t for t in ("K5:zero-mean-nonrep", "K5:tied-nonrep", "K5:informative-nonrep", "K1:wide", "K1:square", "K1:tall", "K1:single-column", "K1:n=p+-1",
+                         "K2:rows-mult4", "K2:rows-mult4+-1", "K2:rows-60", "K2:cols-20", "K3:offset>=1e5", "K3:mean/sdev>=1e6", "K4:unit-2^10", "K4:unit-2^20",
+                         "K7:outputs-presized-holding-other-data", "K8:dup-rows", "K8:dup-col", "K8:ties", "K8:const-among-informative", "K8:zero-mean",
+                         "K9:first-row-missing", "K9:last-row-missing") if seen[t] == 0]
+    miss += ["Stat %s" % f for f in ("avg", "sdev", "var", "rms", "min", "max") if seen[("Stat", f)] == 0]
+    if miss:
+        raise InfraError("validate direction vacuous: input classes never recorded: %s" % ", ".join(miss))
+
+
+def _run_validate(ctx, rd, lib, only=None):
+    """only = (seed, nmat, local matrix id, mode): re-record that run and validate just that matrix (replay of a stored violation)"""
+    exe = build.build_harness("c10t", ["c10_trace.c"], lib)
+    nproc, nmat, ndeg = (4, 72, 36) if ctx.quick else (12, 420, 240)
+    jobs = [[os.path.join(rd, "v%d.ndjson" % i), ctx.seed + 101 * i, nmat, "main"] for i in range(nproc)]
+    jobs.append([os.path.join(rd, "vdeg.ndjson"), ctx.seed + 7, ndeg, "deg"])
+    if only:
+        jobs = [[os.path.join(rd, "v0.ndjson"), only[0], only[1], only[3]]]
+    blocks = _record(ctx, exe, rd, jobs)
+    if only:
+        blocks = [[e for e in ev if e.get("id") == only[2]] for ev in blocks]
+    events = [e for b in blocks for e in b]
+    kinds = collections.Counter(e["e"] for e in events)
+    if not only:
+        _vacuity([e for e in events if e["mode"] == "main"], collections.Counter(e["e"] for e in events if e["mode"] == "main"), False)
+        _vacuity([e for e in events if e["mode"] == "deg"], collections.Counter(e["e"] for e in events if e["mode"] == "deg"), True)
+    elif not events:
+        raise InfraError("replay: the recording no longer contains that matrix")
+    _check_quantifier(events)
+    cols = _account(ctx, events)
     for e in events:
         if e["e"] == "Col" and e["hm"] and len(e["d"]) <= 8:
             ctx.sample(dict(direction="validate", **e), 6)
+    for e in events:
+        if e["e"] == "Col" and "K5:const-nonrep" in e.get("tags", []) and len(e["d"]) <= 10 and e["type"] in (1, 3, 4):
+            ctx.sample(dict(direction="validate-K5", **e), 8)
+            break
 
     def on_reject(ev, idx, block):
         sig = _sig_trace(ev)
-        col = cols.get((ev.get("seed"), ev.get("id"), ev.get("j")))
-        ctx.violation(sig, "recorded %s event is not what the exact statistics of the logged column give: %s ; column: %s" % (ev["e"], ev, col),
-                      dict(kind="trace", seed=ev.get("seed"), nmat=ev.get("nmat"), id=ev.get("id"), event=ev, column=col))
-        return lambda e: e["e"] not in ("Reset", "Col") and _sig_trace(e) == sig
+        col = cols.get((ev.get("seed"), ev.get("mode"), ev.get("id"), ev.get("j")))
+        if ev["e"] in EXTRA_KINDS:
+            what = {"Stat": "column-statistic routine called directly (%s) does not return the exact statistic of the logged column" % ev.get("fn"),
+                    "Deg": "a column with fewer than two present cells (outside the quantifier: its sample spread is undefined) does not come out as finite zeros with finite stored vectors",
+                    "DegCol": "degenerate-column event malformed"}[ev["e"]]
+            ctx.extra(sig, "%s: %s ; column: %s" % (what, {k: v for k, v in ev.items() if k not in ("seed", "nmat", "mode")}, col and dict(d=col["d"], piv=col["piv"], exp=col["exp"], den=col["den"])))
+        else:
+            ctx.violation(sig, "recorded %s event is not what the exact statistics of the logged column give: %s ; column: %s" % (ev["e"], ev, col),
+                          dict(kind="trace", seed=ev.get("seed"), nmat=ev.get("nmat"), mode=ev.get("mode"), id=ev.get("id"), event=ev, column=col))
+        return lambda e: e["e"] not in ("Reset", "Col", "DegCol") and _sig_trace(e) == sig
 
     # one TLC run per recording process keeps the traces short; run them in parallel
     def val(i):
         sub = _Sub(ctx)
-        trace.check_trace(sub, "TracePreprocess", "Trace_Preprocess.cfg", "Trace_Preprocess_prop.cfg", blocks[i], on_reject, drop="event",
-                          label="trace_preprocess_%d" % i, timeout=1500)
+        sub.rejected = trace.check_trace(sub, "TracePreprocess", "Trace_Preprocess.cfg", "Trace_Preprocess_prop.cfg", blocks[i], on_reject, drop="event",
+                                         label="trace_preprocess_%s" % ("deg" if jobs[i][3] == "deg" else i), timeout=1500)
         return sub
-    with ThreadPoolExecutor(4 if ctx.quick else 6) as ex:
-        for sub in ex.map(val, range(len(blocks))):
+    order = sorted(range(len(blocks)), key=lambda i: jobs[i][3] != "deg")        # the deg trace needs several rounds: start it first
+    rejected = {}
+    with ThreadPoolExecutor(5 if ctx.quick else 6) as ex:
+        for i, sub in zip(order, ex.map(val, order)):
             sub.merge()
+            rejected[i] = sub.rejected
     ctx.traces(kinds["Reset"])
-    ctx.steps["validate"] = dict(matrices=kinds["Reset"], columns=kinds["Col"], events=len(events))
-    if not ctx.quick and not only:
+    ctx.steps["validate"] = dict(matrices=kinds["Reset"], columns=kinds["Col"], degenerate_columns=kinds["DegCol"], events=len(events),
+                                 direct_statistic_events=kinds["Stat"], refits=kinds["Again"])
+    if not only:
+        _selftests(ctx, blocks, jobs, rejected)
+
+
+def _selftests(ctx, blocks, jobs, rejected):
+    """binding: corrupt one recorded field per event kind / class -> TLC must reject (InfraError otherwise)"""
+    main = blocks[0]
+    deg = [b for b, j in zip(blocks, jobs) if j[3] == "deg"][0]
+    main_clean = rejected.get(0) == 0        # the whole first recording was accepted: every slice of it is
+
+    def slice_around(ev, pred):
+        """the Reset block (matrix) that holds the first event satisfying pred"""
+        for i, e in enumerate(ev):
+            if pred(e):
+                lo = i
+                while lo > 0 and ev[lo]["e"] != "Reset":
+                    lo -= 1
+                hi = i + 1
+                while hi < len(ev) and ev[hi]["e"] != "Reset":
+                    hi += 1
+                return ev[lo:hi]
+        raise InfraError("binding self-test: no event to corrupt")
+
+    def first(pred, mut):
         def corrupt(ev):
             for e in ev:
-                if e["e"] == "Avg":
-                    e["s1"] += 1
+                if pred(e):
+                    mut(e)
                     return True
             return False
-        trace.binding_selftest(ctx, "TracePreprocess", "Trace_Preprocess_prop.cfg", blocks[0][:200], corrupt, "binding_avg")
+        return corrupt
 
-        def corrupt2(ev):
-            for e in ev:
-                if e["e"] == "Cells" and not e["zero"]:
-                    e["cnr"] = 1000000000
-                    return True
-            return False
-        trace.binding_selftest(ctx, "TracePreprocess", "Trace_Preprocess_prop.cfg", blocks[0][:400], corrupt2, "binding_cells")
+    k5 = {}
+    for e in main:          # (id, j) of constant columns on a non-dyadic grid under options 1, 3, 4: exact zeros demanded
+        if e["e"] == "Col" and "K5:const-nonrep" in e.get("tags", []) and e["type"] in (1, 3, 4):
+            k5[(e["id"], e["j"])] = True
+    isk5 = lambda e: (e.get("id"), e.get("j")) in k5
+    tests = [
+        ("binding_stat", main, lambda e: e["e"] == "Stat" and e["fn"] == "var", lambda e: e.__setitem__("q", e["q"] + 1)),
+        ("binding_again", main, lambda e: e["e"] == "Again", lambda e: e.__setitem__("q", 1000000000)),
+        ("binding_k5_cells_nonzero", main, lambda e: e["e"] == "Cells" and isk5(e), lambda e: e.update(zero=0, nz=1, tmax=816496580)),
+        ("binding_k5_scale", main, lambda e: e["e"] == "Scale" and isk5(e), lambda e: e.__setitem__("rr", 1000000000)),
+        ("binding_k5_unit", main, lambda e: e["e"] == "Col" and isk5(e), lambda e: e.__setitem__("den", 0)),
+        ("binding_deg", deg, lambda e: e["e"] == "Deg" and e["zero"] == 1 and e["sfin"] == 1, lambda e: e.__setitem__("zero", 0)),
+        ("binding_degcol", deg, lambda e: e["e"] == "DegCol", lambda e: e.__setitem__("d", [1, 2] + e["d"][2:])),
+    ]
+    if not ctx.quick:
+        tests += [
+            ("binding_avg", main, lambda e: e["e"] == "Avg", lambda e: e.__setitem__("s1", e["s1"] + 1)),
+            ("binding_cells", main, lambda e: e["e"] == "Cells" and not e["zero"], lambda e: e.__setitem__("cnr", 1000000000)),
+            ("binding_stat_minmax", main, lambda e: e["e"] == "Stat" and e["fn"] == "max", lambda e: e.__setitem__("q", e["q"] - 1)),
+            ("binding_new_missing", main, lambda e: e["e"] == "New" and 99999999 in e["ny"] and not e["zero"], lambda e: e.__setitem__("cn", [c + 1 for c in e["cn"]])),
+        ]
+
+    def one(t):
+        label, ev, pred, mut = t
+        # Deg events the unchanged library already fails (reported as EXTRA above) are left out of the slice
+        sl = [e for e in slice_around(ev, pred) if e["e"] != "Deg" or (e["zero"] == 1 and e["sfin"] == 1 and e["fin"] == 1)]
+        # the uncorrupted slice must be accepted, otherwise a rejection proves nothing
+        if not (ev is main and main_clean):
+            ok, n, r = tlc.validate_trace("TracePreprocess", "Trace_Preprocess_prop.cfg", sl)
+            if not ok:
+                return label, None
+        trace.binding_selftest(ctx, "TracePreprocess", "Trace_Preprocess_prop.cfg", sl, first(pred, mut), label)
+        return label, True
+    with ThreadPoolExecutor(4) as ex:
+        for label, ok in ex.map(one, tests):
+            if ok is None:
+                ctx.note("%s: skipped, the chosen matrix is itself rejected (reported above)" % label)
 
 
 class _Sub:
@@ -307,7 +515,10 @@ def run(ctx):
         "TLC and its CommunityModules evaluate the rational arithmetic of Rat.tla/Preprocess.tla exactly (32-bit overflow raises an error, never wraps)",
         "replay scope: integer matrices rows 2..%s x cols 1..2 over -2..3 with <= 1 MISSING cell, 4 affine images (identity, +-1000 offset, x64 with mean moved into [0.0049,0.0059) at unit 2^-10, its negative), 7 options, units 2^0, 2^-4, 2^20 / 2^-10 / 2^-3" % ("4 (seeded residue-class sample)" if ctx.quick else "5 (1-column shapes exhaustive; 3x2 by residue class 1/8, 4x2 by 1/2048)"),
         "comparison in double by the C driver: 1e-9 relative + 1e-13*max|x| cancellation slack; expected zeros must be exactly 0; stored vectors compared through the rational power of the scale",
-        "validate scope: matrices 2..60 x 1..20, cells (pivot + d)*2^-e with |d| <= 400, e in {0,4,10}, pivots up to 1e6 real units (|pivot| <= 4000 units for RMS scaling so that TLC squares raw values inside 32 bits), spreads >= 0.02 or 0, means 0 or >= 1e-3, <= 20 % missing; integer projection of the library's doubles is trusted harness code",
+        "validate scope: matrices 2..60 x 1..20, cells (pivot + d)*2^-e/q with |d| <= 400, (q = 1, e in {-20,-10,0,4,10}) or (q in {10,3,1000,7,49,100}, e = 0: values not representable), pivots up to 1e6 real units (|pivot| <= 4000 units for RMS scaling so that TLC squares raw values inside 32 bits; <= 1e6 units for informative columns on non-dyadic grids), spreads >= 0.02 or 0, means 0 or >= 1e-3, <= 20 % missing; integer projection of the library's doubles (long double) is trusted harness code",
+        "non-dyadic grids: IEEE-754 double arithmetic with round-to-nearest and recursive summation error bounds (Higham): |computed mean - exact| <= (N+1) u |x|max, input rounding u |x| per cell; the bounds of PrepRound.tla are a-priori worst cases (largest observed/bound 0.23 over 2,880 matrices)",
+        "zero-scale guard window (PrepGuard.tla): offsets of constant columns <= 1e6, rows <= 60; beyond 1e8 the rounding noise of a Pareto-scaled constant column reaches the 1e-3 threshold",
+        "a column with fewer than two present cells has no sample spread: outside the quantifier; the library's NaN there (options 1, 3; option 2 for a wholly MISSING column) is reported as EXTRA-FINDING only; the direct column-statistic routines (incl. MatrixColVar, not used by MatrixPreprocess) likewise",
         "value left at a MISSING cell of the transformed matrix is not constrained by the property (Impl layer only)",
         "ASan/UBSan build: any sanitizer report during replay or recording is a violation",
     ]
@@ -326,11 +537,21 @@ def run(ctx):
         if r.distinct == 0:
             raise InfraError("Preprocess.tla: no state enumerated")
         ctx.note("model: theorems hold on all %d (matrix, option) cases of the exhaustive scope (%.0fs)" % (r.distinct, r.wall))
+        if not ctx.quick:
+            # deeper shapes 6 x 1 and 3 x 2 (all options, <= 1 MISSING) by a seeded residue class of 1/16 of the matrices
+            cfg = _gen_cfg(rd, "mc_deep.cfg", [61, 32], [0], ALL_TYPES, 16, ctx.seed % 16, 1, 0, emit=False)
+            r2 = tlc.run("Preprocess", cfg, workers=4, timeout=1700, coverage=False, xmx="3g")
+            ctx.add_tlc(r2, "mc_preprocess_deep")
+            if not r2.ok or r2.distinct == 0:
+                raise InfraError("Preprocess.tla: invariant %s fails in the model itself (deep shapes, %d states):\n%s" % (r2.violation, r2.distinct, r2.trace_text[:1500]))
+            ctx.note("model: theorems hold on %d further cases of shapes 6x1 and 3x2 (residue class %d of 16, %.0fs)" % (r2.distinct, ctx.seed % 16, r2.wall))
+        _run_guard(ctx)
         _run_validate(ctx, rd, lib)
         ctx.cov["rule"] = ("replay: a case is one (matrix, affine image, option) enumerated by TLC and executed through fit/apply-same/apply-new/tensor at each unit; "
                            "distinct key = (option, rows, cols, image, has zero-scale column, has MISSING); non-trivial = MISSING or zero-scale or 2 columns or a "
-                           "non-identity image.  validate: a case is one recorded column / tensor / copy; key = (option, rows class, cols class, unit, constant?, "
-                           "has MISSING, large pivot)")
+                           "non-identity image.  validate: a case is one recorded column / tensor / copy / refit / direct-statistic call; key = (event, option, rows class, "
+                           "cols class, unit exponent, dyadic?, constant?, has MISSING, large pivot).  classes: one count per recorded matrix (Reset tags) resp. column "
+                           "(Col tags) resp. TLC-enumerated replay case (replay/...), a case can carry several class tags")
         ctx.cov["exhaustive"] = not ctx.quick
     finally:
         shutil.rmtree(rd, ignore_errors=True)
@@ -350,7 +571,7 @@ def replay(ctx, body):
             ctx.note("replayed 1 case: %d library runs, %d failed comparisons" % (n, f))
         elif case.get("kind") == "trace":
             # the recording driver is deterministic in (seed, nmat): re-record on the current tree and validate that matrix only
-            _run_validate(ctx, rd, lib, only=(case["seed"], case["nmat"], case.get("id", 0)))
+            _run_validate(ctx, rd, lib, only=(case["seed"], case["nmat"], case.get("id", 0), case.get("mode", "main")))
             ctx.case(("replay2", body.get("signature")), True)
         else:
             run(ctx)
